@@ -19,4 +19,4 @@ Definition c03_nlr_b (g : grammar) (T : table) (fuel : nat) (w : list nat)
     Bool.eqb real_ok (match rs with [] => false | _ => true end) ].
 
 Definition c03_table_b (g : grammar) (T : table) : list bool :=
-  [ sound_rn_b g T; complete_rn_b g T ].
+  [ sound_rn_b g T; complete_rn_b g T; rn_complete_b g T ].
